@@ -361,8 +361,7 @@ theorem step_fd (cfg : Cfg) (st : St) (e : Ev) : FD (outPlus st e) (step cfg st 
           · exact absurd h hc
           · simpa using h
       · simp only [doSend]
-        exact checkSendBatch_fd cfg { st with nextSid := st.nextSid + 1, queue := _, msgCount := _, byteCount := _,
-                                              outstanding := st.outstanding ++ [st.nextSid] }
+        exact checkSendBatch_fd cfg (enqueue st st.nextSid topic key msgs)
     · simp only [step, outPlus, h', ne_eq, not_false_eq_true, if_true, if_false]
       exact FD.nofire (by simp [firedSids])
   | cancel sid =>
